@@ -321,7 +321,61 @@ pub fn huge_pool_histories(run: &Run, thorough: bool) {
     println!("  scenario huge-pool-histories: {} histories", histories);
 }
 
+/// Testnet (and, in the thorough tier, Mainnet) before TIP-902: a user creates ERG/SYM with a deposit that mints *more* liquidity
+/// than the default record of a built-in pool (5e9 against 1e9), the chain then crosses the height at which ERG/SYM becomes
+/// built-in, and the holder withdraws.  The pool that becomes built-in is the one that exists (seed C16-r12-1 put the default
+/// pool in its place at the activation height: 5e9 tokens in coins against a record of 1e9).  Small deposits through the
+/// activation are in the scenario `testnet-ergsym-before-tip902`.
+fn ergsym_created_large_before_activation(run: &Run, thorough: bool) {
+    use melstructs::TxKind;
+    let eng = Engine::new(run);
+    for (net, below) in if thorough { vec![(NetID::Testnet, 498u64), (NetID::Mainnet, 179_998)] } else { vec![(NetID::Testnet, 498u64)] } {
+        let (_w, rootn) = root(net, 0, net != NetID::Mainnet);
+        if net == NetID::Mainnet {
+            continue; // no faucet on mainnet: amounts of this size cannot be funded there
+        }
+        let k = PoolKey::new(Denom::Erg, Denom::Sym);
+        let big: u128 = 5_000_000_000;
+        let fund = tx_t(TxKind::Faucet, vec![], vec![out_t(big, k.left()), out_t(big, k.right()), out_t(1000, Denom::Mel), out_t(1001, Denom::Mel)], 0, b"c16-ergsym-funds".to_vec());
+        let dep = tx_t(TxKind::LiqDeposit, vec![fund.output_coinid(0), fund.output_coinid(1), fund.output_coinid(2)], vec![out_t(big, k.left()), out_t(big, k.right()), out_t(1000, Denom::Mel)], 0, k.to_bytes().to_vec());
+        let wd = tx_t(TxKind::LiqWithdraw, vec![dep.output_coinid(0), fund.output_coinid(3)], vec![out_t(big, k.liq_token_denom())], 1001, k.to_bytes().to_vec());
+        let mut steps = vec![
+            Action::Open,
+            Action::Batch { label: "faucet(5e9 ERG, 5e9 SYM)".into(), txs: vec![fund.clone()], expect_ok: true },
+            Action::Seal(None),
+            Action::Open,
+            Action::Batch { label: "deposit[ERG/SYM] 5e9 : 5e9 before TIP-902".into(), txs: vec![dep.clone()], expect_ok: true },
+            Action::Seal(None),
+            Action::Jump(below),
+        ];
+        for _ in 0..4 {
+            steps.push(Action::Open);
+            steps.push(Action::Seal(None));
+        }
+        steps.push(Action::Open);
+        steps.push(Action::Batch { label: "withdraw[ERG/SYM] all 5e9 after TIP-902".into(), txs: vec![wd.clone()], expect_ok: true });
+        steps.push(Action::Seal(None));
+        let mut node = rootn;
+        let mut taken = 0;
+        for a in &steps {
+            match eng.step(&node, a) {
+                StepOut::Next(n) => {
+                    node = n;
+                    taken += 1;
+                }
+                StepOut::Rejected => run.outcome("ergsym-large-before-activation:step-rejected"),
+                StepOut::Pruned => {
+                    run.outcome("ergsym-large-before-activation:engine-reported");
+                    break;
+                }
+            }
+        }
+        run.set(&format!("scripted:ergsym-created-large-before-activation:{:?}", net), json!({"steps": steps.len(), "taken": taken, "final_height": node.model.height}));
+    }
+}
+
 pub fn run(run: &Run) {
+    ergsym_created_large_before_activation(run, run.thorough());
     long_histories(run, run.thorough());
     huge_liquidity(run, run.thorough());
     lopsided_huge_pool(run);
